@@ -465,6 +465,26 @@ def alt_counts(schema):
     return tot, ml
 
 
+def name_arg(rng, name):
+    """The name as an application may hand it to Checker.match / check: list of encoded components, URI string, encoded Name, tuple,
+    or a list that mixes encoded and textual components (NonStrictName)."""
+    if not name:
+        return '/'
+    k = rng.randrange(6)
+    if k == 0:
+        return [bytes(c) for c in name]
+    if k == 1:
+        return rc.name_to_uri(list(name), canonical=True)
+    if k == 2:
+        return rc.enc_name(list(name))
+    if k == 3:
+        return tuple(bytes(c) for c in name)
+    if k == 4:
+        # encoded first, textual later (e.g. Name.from_str(prefix) + ['file', 'a.txt']); the last one encoded
+        return [bytes(c) if (i == 0 or i == len(name) - 1) else rc.comp_to_canonical_uri(c) for i, c in enumerate(name)]
+    return [rc.comp_to_canonical_uri(c) if i % 2 == 0 else bytearray(c) for i, c in enumerate(name)]
+
+
 def all_names(alphabet, max_len, limit, rng):
     """All names of length 1..max_len over the alphabet (sampled when more than limit)."""
     total = sum(len(alphabet) ** k for k in range(1, max_len + 1))
